@@ -32,6 +32,8 @@ func checkC03(r *Report, p *Program) {
 	// objects listed for a declared child type come from an informer of exactly that resource and version
 	keyCompleteness(r, p, "R03.9", "informer.resourceKey")
 	cachesSyncedBeforeWorkers(r, p, "R03.10")
+	// which children are claimed (and so shown to the hook) is decided by makeSelector: generated ⇒ controller-uid only (shared with C04)
+	r04_4(r, p)
 }
 
 func r03_1(r *Report, p *Program) {
@@ -68,7 +70,7 @@ func r03_1(r *Report, p *Program) {
 		}
 		n := 0
 		ok := true
-		for _, b := range f.Blocks {
+		for _, b := range engine.BlocksInl(f) {
 			for _, in := range b.Instrs {
 				if mu, isMU := in.(*ssa.MapUpdate); isMU {
 					n++
@@ -301,7 +303,7 @@ func r03_5(r *Report, p *Program) {
 		for i, cs := range callsTo(f, false, "hooks.Hook.Call") {
 			succ := successEdgeOf(cs.Instr)
 			var from []engine.Point
-			for _, b := range f.Blocks {
+			for _, b := range engine.BlocksInl(f) {
 				for j := range b.Succs {
 					if l, has := engine.EdgeLit(b, j); has && succ(l) {
 						from = append(from, engine.Point{B: b.Succs[j]})
@@ -325,7 +327,7 @@ func r03_6(r *Report, p *Program) {
 			continue
 		}
 		got := map[string]string{}
-		for _, b := range f.Blocks {
+		for _, b := range engine.BlocksInl(f) {
 			for _, in := range b.Instrs {
 				if st, ok := in.(*ssa.Store); ok {
 					a := E(st.Addr)
@@ -368,7 +370,7 @@ func r03_6(r *Report, p *Program) {
 				continue
 			}
 			ok := false
-			for _, b := range f.Blocks {
+			for _, b := range engine.BlocksInl(f) {
 				for _, in := range b.Instrs {
 					if st, isS := in.(*ssa.Store); isS && E(st.Addr) == "p0."+fld && E(st.Val) == "p1" {
 						ok = true
@@ -423,7 +425,7 @@ func cachesSyncedBeforeWorkers(r *Report, p *Program, rule string) {
 				}
 				target = nil
 				if g != nil {
-					for _, b := range wait.Fn.Blocks {
+					for _, b := range engine.BlocksInl(wait.Fn) {
 						for _, in := range b.Instrs {
 							if mc, isMC := in.(*ssa.MakeClosure); isMC && mc.Fn == ssa.Value(g) {
 								target = in
